@@ -233,9 +233,10 @@ def rule_trivia_sinks(ck, facts):
         if "cst_print" not in f.path or f.kind != "fn":
             continue
         names = [(callee(t) or "").split("::")[-1] for _, t in f.calls()]
-        if "get_leading_trivia" in names and "get_trailing_trivia" in names:
+        # the token emitter: reads both trivia maps of a token *and* the token's own text
+        if "get_leading_trivia" in names and "get_trailing_trivia" in names and "text" in names and any((callee(t) or "").endswith("Token::text") and "parser" in (callee(t) or "") for _, t in f.calls()):
             emitters.append(f)
-    ck.require(R, len(emitters) == 1, "anchor|token-emitter", "expected one function reading both trivia maps of a token, found %d" % len(emitters))
+    ck.require(R, len(emitters) == 1, "anchor|token-emitter", "expected one function reading both trivia maps of a token and its text, found %d" % len(emitters))
     if len(emitters) != 1:
         return
     em = emitters[0]
@@ -398,12 +399,42 @@ def rule_keyword_space(ck, facts):
     ck.floor(R, "keyword_arms", n, 5)
 
 
+def _collect_locals(x, out):
+    if isinstance(x, list):
+        if len(x) == 2 and isinstance(x[0], int) and isinstance(x[1], list):
+            out.add(x[0])
+            return
+        for y in x:
+            _collect_locals(y, out)
+
+
 def rule_list_items(ck, facts):
     R = "C14.list-items"
     ck.rule(R, "a printer loop that skips the comma tokens of a list and re-inserts separators itself delimits the items by those commas: a child is appended to the item under construction, and an item is only closed (pushed) in the comma arm or after the loop — pushing one item per child invents separators inside `x:float` or `g = 2.0`")
     from ..cfg import natural_loops
     fmt = facts.crate(FMT)
     n = 0
+    # printers of the kinds in which a lone comma is significant: the parser tells `(x,)` (TupleExpr / TuplePattern /
+    # TupleType) from `(x)` by that comma.  Found from the dispatch: callees (two calls deep) of the arms of Tuple* kinds.
+    tuple_printers = set()
+    dcands = [c for c in cover.find_matchers(facts, FMT, SK, min_arms=30) if not roles.is_derived(c.fn)]
+    if dcands:
+        dcov = max(dcands, key=lambda c: len(c.primary_handled()))
+        for v in dcov.primary_handled():
+            if not v.startswith("Tuple"):
+                continue
+            tb0 = dcov.arm_target(v)
+            frontier = [callee(dcov.fn.term(b)) for b in reachable(dcov.fn, tb0, stop=[dcov.primary.block]) if dcov.fn.term(b)[KIND] == "call"]
+            for _ in range(2):
+                nxt = []
+                for c in frontier:
+                    g = facts.fn(c or "")
+                    if g is None or g.crate != FMT or g.path in tuple_printers:
+                        continue
+                    tuple_printers.add(g.path)
+                    nxt.extend(callee(t) or "" for _, t in g.calls())
+                frontier = nxt
+    ck.floor(R, "printers_of_tuple_kinds", len(tuple_printers), 3)
     for f in fmt.fns:
         if f.kind == "promoted" or "cst_print" not in f.path or "::tests" in f.path:
             continue
@@ -449,6 +480,66 @@ def rule_list_items(ck, facts):
                     return True
             return False
 
+        # ---- the comma of a one-item list: `(x,)` is a tuple, `(x)` is not.  A printer that swallows the commas and
+        # puts items-1 separators back must remember that it saw a comma and emit one after the loop depending on that
+        # (a one-item list with a comma, or any trailing comma).
+        from ..facts import const_str
+        comma_arm = set(reachable(f, tb, stop=stop))
+        flags = set()
+        for b in comma_arm:
+            for st in f.stmts(b):
+                if st[KIND] == "a" and not st[4][1] and f.local_ty(st[4][0]) == "bool" and st[5][0] == "use" and st[5][1][0] == "c":
+                    flags.add(st[4][0])
+
+        def depends(l, depth=3, seen=None):
+            seen = seen if seen is not None else set()
+            if l in flags:
+                return True
+            if depth == 0 or l in seen:
+                return False
+            seen.add(l)
+            for (db, di_, ds) in di.defs.get(l, []):
+                if di_ is not None:
+                    srcs = set()
+                    _collect_locals(ds[5], srcs)
+                    if any(depends(x, depth - 1, seen) for x in srcs if x != l):
+                        return True
+                for d in dom.get(db, ()):
+                    if d == db or f.term(d)[KIND] != "switch" or f.term(d)[4][0] not in ("cp", "mv"):
+                        continue
+                    if depends(f.term(d)[4][1][0], depth - 1, seen):
+                        return True
+            return False
+
+        lone = False
+        for b, t in f.calls():
+            if b in body or (callee(t) or "").split("::")[-1] != "text" or len(t[5]) < 2:
+                continue
+            cur = t[5][1]
+            txt = None
+            for _ in range(5):
+                r = di.resolve(cur) if cur[0] != "c" else ("const", cur)
+                if r[0] == "const":
+                    txt = const_str(r[1])
+                    break
+                if r[0] == "rv" and r[1][5][0] in ("ref", "raw"):
+                    cur = ["cp", [r[1][5][1][0], []]]
+                    continue
+                break
+            if txt != ",":
+                continue
+            for d in dom.get(b, ()):
+                if d == b or d in body or f.term(d)[KIND] != "switch" or f.term(d)[4][0] not in ("cp", "mv"):
+                    continue
+                if depends(f.term(d)[4][1][0]):
+                    lone = True
+        k3 = "lone-comma|%s" % f.short.split("::")[-1]
+        if f.path not in tuple_printers:
+            pass  # a trailing comma carries no meaning in the lists this printer is used for
+        elif lone:
+            ck.ok(R, k3, {"fn": f.short, "comma_flags": len(flags)})
+        else:
+            ck.bad(R, k3, "%s swallows the list's commas and writes items-1 separators back, and nothing it emits after the loop depends on having seen a comma: the comma of a one-element list is lost, so the tuple `(x,)` / the pattern `(a,)` is printed as the parenthesised `(x)` / `(a)` — a different syntax tree" % f.short, f.where())
         bad = [t for b, t in pushes if b in body and b not in comma_region and not item_aware(b)]
         key = "items|%s" % f.short.split("::")[-1]
         if not bad:
@@ -458,9 +549,55 @@ def rule_list_items(ck, facts):
     ck.floor(R, "comma_skipping_list_printers", n, 1)
 
 
+def rule_skipped_token_trivia(ck, facts):
+    """comments hang on tokens (leading / trailing trivia): a token the printer consumes without printing it takes its
+    comments with it"""
+    from ..cfg import natural_loops
+
+    R = "C14.skipped-trivia"
+    ck.rule(R, "every arm of a printer's dispatch on the kind of a child *token* (a syntax token, not a trivia token) either emits the token through the trivia-aware emitter, reads that token's trivia itself, or hands the child to the generic printer: an arm that swallows the token (it writes the delimiter itself, or re-creates separators later) drops the comments attached to it")
+    TRIVIA = {"Whitespace", "LineBreak", "SingleLineComment", "MultiLineComment", "Eof", "Error"}
+    EMIT = {"get_leading_trivia", "get_trailing_trivia", "cst_to_doc", "print_leaf_children"}
+    # plus every function of the printer that reads both trivia maps of the token it is given (the token emitter and
+    # trivia-only helpers), found by role
+    for g in facts.crate(FMT).fns:
+        if "cst_print" in g.path and g.kind == "fn":
+            nm = {(callee(t) or "").split("::")[-1] for _, t in g.calls()}
+            if "get_leading_trivia" in nm and "get_trailing_trivia" in nm:
+                EMIT.add(g.short.split("::")[-1])
+    n = 0
+    for f in facts.crate(FMT).fns:
+        if f.kind == "promoted" or "cst_print" not in f.path or "::tests" in f.path:
+            continue
+        cov = cover.coverage(facts, f, TK)
+        if not cov or cov.primary is None:
+            continue
+        loops = natural_loops(f)
+        for v in sorted(cov.primary_handled()):
+            if v in TRIVIA:
+                continue
+            tb = cov.arm_target(v)
+            if tb is None:
+                continue
+            inner = [l for l in loops if tb in l[1]]
+            if not inner:
+                continue  # not a per-child dispatch
+            stop = [cov.primary.block, min(inner, key=lambda l: len(l[1]))[0]]
+            region = reachable(f, tb, stop=stop)
+            names = {(callee(f.term(b)) or "").split("::")[-1] for b in region if f.term(b)[KIND] == "call"}
+            n += 1
+            key = "skip|%s|%s" % (f.short.split("::")[-1], v)
+            if names & EMIT:
+                ck.ok(R, key)
+            else:
+                ck.bad(R, key, "%s consumes a %s token without emitting it through the trivia-aware emitter and without reading its trivia: a comment attached to that token (e.g. written right after it) is not in the output" % (f.short, v), f.where(f.term(tb)))
+    ck.floor(R, "token_arms_checked", n, 40)
+
+
 def run(ck, facts, tier):
     pm = ParserModel(facts)
     ck.floor("C14.anchor", "fmt_bodies", len(facts.crate(FMT).fns), 100)
+    rule_skipped_token_trivia(ck, facts)
     rule_dispatch(ck, facts, pm)
     rule_comment_kinds(ck, facts)
     rule_trivia_sinks(ck, facts)
